@@ -34,6 +34,8 @@ type SynGrammar struct {
 	Header string // file header between << >> (optional)
 	Prods  []Prod
 	Flags  []string // extra gocc flags (e.g. -a)
+	// ExtraToks: tokens of the lexical part that the syntax part never mentions (C10)
+	ExtraToks []string
 }
 
 func P(head string, body ...Sym) Prod { return Prod{Head: head, Body: body} }
@@ -147,6 +149,11 @@ func (g *SynGrammar) HarnessDataPkg(pkg string, withErrorAlts bool) string {
 	for _, t := range terms {
 		fmt.Fprintf(&b, "%q, ", t.Name)
 	}
+	if pkg == "token" {
+		for _, t := range g.ExtraToks {
+			fmt.Fprintf(&b, "%q, ", t)
+		}
+	}
 	b.WriteString("}\n")
 	b.WriteString("var verifNTNames = []string{")
 	for _, n := range nts {
@@ -226,6 +233,12 @@ var SynCorpus = []*SynGrammar{
 			P("A", NT("B")), P("B", Lit("b")), P("B", Lit("("), NT("A"), Lit(")")),
 			P("U", Lit("u"), NT("U")),
 			P("R", Lit("r")),
+		}},
+	{Name: "G06", Why: "a state whose item set strictly contains the item set of a state discovered earlier (same core item, one more look-ahead context)",
+		Lex: stdLex,
+		Prods: []Prod{
+			P("S", NT("A"), Lit("x")), P("S", Lit("b"), NT("A"), Lit("x")), P("S", Lit("b"), NT("C"), Lit("y")),
+			P("A", Lit("c")), P("C", Lit("c")),
 		}},
 	{Name: "G08", Why: "empty between terminals; mutual recursion",
 		Lex: stdLex,
